@@ -101,6 +101,10 @@ def corpus(tier):
                 r = c.route or "none"
                 if pid == "C02":   # routes of C02 are (group, form): keep the node kind visible as well
                     r = r + "." + c.id.split("tree=")[-1][:6] if "tree=" in c.id and tier == "thorough" else r
+                    # the depth-1 trees (one per operator and operand order, tensor/number on either side) are each their own route: the
+                    # element-wise operators are where every ISA / fallback vector type has its own code
+                    if r.startswith("core1") and "tree=" in c.id and c.id.startswith(("C02/expr[f32|", "C02/expr[i32|")):
+                        r = "core1." + c.id.split("|")[0].split("[")[-1] + "." + c.id.split("tree=")[-1]
                 if taken.get(r, 0) >= per_route or c.id in ids:
                     continue
                 if "sweep32" in c.id:
@@ -109,12 +113,25 @@ def corpus(tier):
                 ids.add(c.id)
                 meta = dict(c.meta); meta["header"] = mod.HEADER; meta["owner"] = pid
                 meta["needs_cxx17"] = ref.std == "17" and ids14 is not None and c.id not in ids14
-                out.append(Case(c.id, c.body, route=f"{pid}.{c.route}", must_compile=c.must_compile, cost=c.cost, judged=True, meta=meta))
+                out.append(Case(c.id, c.body, route=f"{pid}.{r if pid == 'C02' and r.startswith('core1.') else c.route}", must_compile=c.must_compile, cost=c.cost,
+                                judged=True, meta=meta))
     # cap per owning property, spread evenly over its routes (quick 15, thorough 60 identities per property)
+    # scalar indexing of ranks 1-4 with every in-range index tuple in both encodings (the assertion-carrying path of checked builds)
+    from .C05 import shp, dims
+    for t, sh in (("i32", (2, 3, 2, 3)), ("f64", (2, 3, 4)), ("f64", (3, 5))):
+        cid = f"C05/elem[{t}|{shp(sh)}|op=all]"
+        if "C05" in READY and cid not in ids:
+            ids.add(cid)
+            out.append(Case(cid, f"c05::elem<{CTYPE[t]},{dims(sh)}>(fx);", route="C05.fam.elem", cost=0.15, judged=True,
+                            meta={"header": "c05.h", "owner": "C05x", "needs_cxx17": False}))
     cap = 8 if tier == "quick" else 25
-    capped = []
+    capped = [c for c in out if c.meta["owner"] == "C05x"]
     for pid in SOURCES:
         mine = sorted((c for c in out if c.meta["owner"] == pid), key=lambda c: (c.route, c.id))
+        if pid == "C02":
+            c1 = [c for c in mine if c.route.startswith("C02.core1.") and c.route.count(".") >= 3]
+            capped += c1
+            mine = [c for c in mine if c not in c1]
         if len(mine) > cap:
             step = len(mine) / float(cap)
             mine = [mine[int(i * step)] for i in range(cap)]
@@ -214,6 +231,6 @@ def finalize(run, cov):
 
 
 def bounds(tier):
-    return {"quick": "corpus = up to 8 identities per registered property spread over its dispatch routes (generated for W of SSE and of AVX-512); 12 configurations: every ISA "
+    return {"quick": "corpus = up to 8 identities per registered property spread over its dispatch routes (generated for W of SSE and of AVX-512) + every depth-1 element-wise tree of C02 for f32 and i32 (number on either side of each operator) + scalar indexing of ranks 2-4 with every in-range tuple in both encodings; 12 configurations: every ISA "
                      "under two optimisation levels with C++14/17, NDEBUG/debug/runtime-checks and g++/clang rotated over them, plus 8 documented macro settings",
             "thorough": "corpus = up to 25 identities per property (three per route); full grid ISA x {C++14,17} x {O0,O2,O3} (36) + 13 macro variations + clang on three ISAs + debug/runtime-check builds"}[tier]
